@@ -93,5 +93,22 @@ PROPS["C16"] = dict(
     assumptions=["system libogg 1.3.5 is correct"],
 )
 
+PROPS["C01"] = dict(
+    engine="rc", engine_name="rc-tape", sources=["props/c01.cpp"], level="exploration", design_ref="3.1", tape_scale=6,
+    quick=dict(cases=250), thorough=dict(cases=6000),
+    technique="property-based testing (rapidcheck tapes): generated valid Vorbis I streams (all floor/residue/codebook/mapping features) decoded by libvorbis and by an independent specification-level reference decoder; differential with a derived single-precision error bound",
+    level_text="vgen constructs complete valid streams from a tape (setup headers using floor 0 and 1, residue 0/1/2, ordered/sparse/single-entry/lattice/explicit/sequence codebooks, 1..16 submaps, coupling, 1..64 modes, "
+               "block sizes 64..8192, 1..255 channels; audio packets produced by a specification-level packet walk in generate mode). libvorbis must accept the headers, consume every packet to the same bit, return the "
+               "sample counts the specification defines (incl. start/end trimming by granule position) and every sample must agree with a double-precision reference decoder written from the specification text within a "
+               "running single-precision error bound.",
+    level_note="Trusted: my reading of the specification (vspec.h); the bound uses a safety factor (IMDCT c=32). Ill-conditioned cases (floor 0 next to an LSP root, bound > 1% of the block peak) compare counts and bit "
+               "consumption only and are counted. Streams stay inside libvorbis's documented limits (DESIGN 3.1 soundness notes).",
+    rule="case = generated setup + 2..40 generated audio packets + granule scheme; non-trivial = >= 3 packets, at least one channel with a used floor and a non-zero residue; distinct by hash of setup and packet bytes",
+    require_labels=["floor 0", "floor 1", "residue 0", "residue 1", "residue 2", "book: ordered", "book: sparse", "book: single entry", "book: lattice (lookup 1)", "book: explicit values (lookup 2)", "book: sequence_p",
+                    "mapping: several submaps", "mapping: channel coupling", "more than 2 modes", "transition SS", "transition SL", "transition LS", "transition LL", "start trim", "end trim", "samples compared",
+                    "bs0=64", "bs1=8192"],
+    assumptions=["the specification text in doc/*.tex is the authority; vspec.h is a faithful transcription of it"],
+)
+
 NOT_APPLICABLE = {}
 HOOK_COMMITS = []
